@@ -39,7 +39,7 @@ Print Assumptions C05_every_history_checked.
 
 (* every history-reading command returns the loader's code, the unchanged tree, no written generation, no write *)
 Theorem C05_commands_refuse : forall Hb matches C cdig ser t e, load C cdig t = inr e ->
-  (forall req no_dh ip ifl, refused C t e (create_folder Hb matches C cdig ser t req no_dh ip ifl)) /\
+  (forall req no_dh dr ip ifl, refused C t e (create_folder Hb matches C cdig ser t req no_dh dr ip ifl)) /\
   (forall req sf ip ifl, refused C t e (create_sf Hb matches C cdig ser t req sf ip ifl)) /\
   (forall d only ip ifl, refused C t e (verify_like Hb matches C cdig d t only ip ifl)) /\
   (forall f co ro ip ifl, refused C t e (verify_dh Hb matches C cdig t f co ro ip ifl)) /\
